@@ -49,9 +49,6 @@ func layerDiff(h *harness.H) {
 	h.Assume("a case whose channels never become visible on every node (aspen metadata gossip) is inconclusive, not judged")
 	h.Assume("calls into the distributed writer/iterator that do not return within the watchdog are inconclusive (no deadlock verdict is attempted here)")
 	n := h.N(150, 10000)
-	if h.Thorough() {
-		partialSyncFrameOdds = 40 // abandoned clusters cannot be reclaimed; keep them rare in long runs
-	}
 	workers := runtime.GOMAXPROCS(0)
 	if workers > 12 {
 		workers = 12
